@@ -124,9 +124,14 @@ fn replay_decode(s: &mut Summary, c: &Value) {
 
 fn replay_window(s: &mut Summary, c: &Value) {
     let g = |k: &str| c[k].as_u64().unwrap() as usize;
-    let maps: [[Time; 4]; 2] = [
+    // instants with a fractional second: evaluation times come from the clock (Time::now()), windows from certificates
+    let ms = |t: Time, m: i64| t + chrono::TimeDelta::try_milliseconds(m).unwrap();
+    let noon = Time::utc(2024, 5, 6, 12, 0, 0);
+    let maps: [[Time; 4]; 4] = [
         [Time::utc(1949, 12, 31, 23, 59, 59), Time::utc(1950, 1, 1, 0, 0, 0), Time::utc(2049, 12, 31, 23, 59, 59), Time::utc(2050, 1, 1, 0, 0, 0)],
         [Time::utc(2024, 2, 28, 23, 59, 59), Time::utc(2024, 2, 29, 0, 0, 0), Time::utc(2024, 2, 29, 0, 0, 1), Time::utc(9999, 12, 31, 23, 59, 59)],
+        [noon, ms(noon, 500), ms(noon, 1000), ms(noon, 1500)],
+        [ms(noon, 1), ms(noon, 250), ms(noon, 999), ms(noon, 1001)],
     ];
     for (mi, m) in maps.iter().enumerate() {
         let r = guarded(|| -> Result<(), (String, String)> {
@@ -139,6 +144,9 @@ fn replay_window(s: &mut Summary, c: &Value) {
             let (e1, e2) = (c["trim"][0].as_u64().unwrap() as usize, c["trim"][1].as_u64().unwrap() as usize);
             if tr.not_before() != m[e1] || tr.not_after() != m[e2] {
                 return Err(("window:trim".into(), "trim is not the intersection".into()));
+            }
+            if mi >= 2 {
+                return Ok(()); // X.509 cannot carry fractions of a second: no encoding round trip for these
             }
             let bytes = v.encode().to_captured(Mode::Der).into_bytes();
             let back = Mode::Der.decode(bytes.as_ref(), Validity::take_from).map_err(|e| ("window:der".to_string(), e.to_string()))?;
